@@ -233,14 +233,14 @@ class Enc:
             self.arr(ty, elems, note)
         elif kind == "rle":
             runs = layout[1]
-            self.i32(len(elems), "rowcount", note)
+            self.i32(len(elems), "rowcount", note + " rle")
             self.i32(len(runs), "arrcount", note)
             for r in runs: self.f("run", bytes([r - 1]))
             vals = []; i = 0
             for r in runs: vals.append(elems[i]); i += r
             self.arr(ty, vals, note)
         else:
-            self.i32(len(elems), "rowcount", note)
+            self.i32(len(elems), "rowcount", note + " bit")
             bits = [1 if nonzero(ty, e) else 0 for e in elems]
             out = bytearray()
             for i in range(0, len(bits), 8):
